@@ -1,4 +1,4 @@
-CONSTANTS MaxEntries = 4
+CONSTANTS MaxEntries = 5
   Fixed = TRUE
   EmitHist = FALSE
   ValidEntry <- McValid
